@@ -62,7 +62,7 @@ def choose(rng, st):
         ops = ["TakeSeqs", "Degap", "DeepCopy"] + (["Rc", "ToRna", "ToDna"] if nucleic else [])
     else:
         ops = ["Slice", "Slice", "Slice", "Index", "Stride", "TakePositions", "TakeSeqs", "OmitGapPos", "NoDegenerates",
-               "Filtered", "DegapRel", "SampleRepl", "SamplePerm", "Concat", "ToType", "Degap", "DeepCopy"]
+               "Filtered", "DegapRel", "SampleRepl", "SamplePerm", "Concat", "ConcatSlices", "ConcatSlices", "ToType", "Degap", "DeepCopy"]
         ops += ["Rc", "Rc", "ToRna", "ToDna"] if nucleic else []
     for _ in range(50):
         op = rng.choice(ops)
@@ -113,6 +113,21 @@ def choose(rng, st):
         if op == "Concat" and n <= 12:
             ws = ["self", "fresh", "reorder"] + (["rc"] if nucleic else []) + (["first", "last"] if n else [])
             return op, [rng.choice(ws)]
+        if op == "ConcatSlices" and n:
+            # two slices of the same object: any pair, with extra weight on pairs meeting at a cut (either order)
+            a, b = sorted((rng.randint(0, n), rng.randint(0, n)))
+            x = rng.random()
+            if x < 0.3:
+                c, d = sorted((rng.randint(0, n), a))      # right piece ends where the left one starts (swapped)
+            elif x < 0.45:
+                c, d = sorted((b, rng.randint(0, n)))      # in display order
+            elif x < 0.6:
+                c, d = sorted((rng.randint(0, n), min(n, a + 1)))
+            else:
+                c, d = sorted((rng.randint(0, n), rng.randint(0, n)))
+            if (b - a) + (d - c) <= 24:
+                return op, [a, b, c, d]
+            continue
         if op == "ToType":
             return op, [rng.random() < 0.5]
         if op == "DeepCopy":
